@@ -63,11 +63,29 @@ class CtxNoop(ModelValue):
 
 
 class RangeV(ModelValue):
-    """range(n) with symbolic n (only consumed by `for` loops under an invariant)."""
-    __slots__ = ("n",)
+    """range(start, stop, step) with symbolic bounds and a concrete non-zero step (only consumed by `for` loops
+    under an invariant).  n = number of iterations."""
+    __slots__ = ("start", "stop", "step")
 
-    def __init__(self, n):
-        self.n = n
+    def __init__(self, start, stop=None, step=1):
+        if stop is None:
+            start, stop = 0, start
+        self.start, self.stop, self.step = start, stop, step
+
+    @property
+    def n(self):
+        import z3 as _z3
+        from .sym import zint, wrap
+        a, b = zint(self.start), zint(self.stop)
+        if self.step > 0:
+            cnt = (b - a + (self.step - 1)) / self.step
+        else:
+            cnt = (a - b + (-self.step - 1)) / (-self.step)
+        return wrap(_z3.If(cnt >= 0, cnt, 0))
+
+    def value_at(self, j):
+        from .sym import zint, wrap
+        return wrap(zint(self.start) + self.step * zint(j))
 
 
 MOD_CANON = {"numpy": "np", "scipy": "sp"}
